@@ -4,4 +4,5 @@ CONSTANTS
   MaxLen = 3
   Thresholds = {0, 2}
   AnswerDelays = {0}
+  DrainLens = {1, 2}
 CHECK_DEADLOCK FALSE
